@@ -208,6 +208,9 @@ func (s *servers) handle(w http.ResponseWriter, r *http.Request) {
 		}
 		w.Header().Set("X-Authz-A", "a-"+h)
 		w.Header().Set("X-Authz-B", "b-"+h)
+		for _, x := range []string{"C", "D", "E"} {
+			w.Header().Set("X-Authz-"+x, strings.ToLower(x)+"-"+h)
+		}
 		writeJSON(w, map[string]any{"h": h, "echo": echo})
 	case strings.HasPrefix(p, "/token"):
 		resp := map[string]any{"access_token": "at-" + h, "token_type": "Bearer"}
